@@ -471,7 +471,7 @@ class Harness:
     def src(self):
         return '\n'.join(self.lines)
 
-    def monomorphise(self, types, bound='<S: BaseNum>', kinds=('value', 'post'), method_syntax=False, soft=False):
+    def monomorphise(self, types, bound='<S: BaseNum>', kinds=('value', 'post'), method_syntax=False, soft=False, only=None):
         """re-instantiate every root with the given generic bound at concrete scalar types (same specs): rustc selects the
         impls a user of that type really gets.  With method_syntax the call is also respelled `a.method(..)`, the way user
         code is written, so that an inherent method on one concrete type that shadows the trait method is seen.
@@ -484,6 +484,8 @@ class Harness:
             if not m or m.group(2) != bound:
                 continue
             name = m.group(1)
+            if only is not None and not re.search(only, name):
+                continue
             spec, kw = self.specs[name]
             if kinds is not None and spec[0] not in kinds:
                 continue
@@ -493,6 +495,9 @@ class Harness:
                 mm = re.match(r'^(?:[A-Z]\w*(?:::<[^()]*>)?)::(\w+)\(a(?:, (.*))?\)$', body)
                 if mm:
                     variants.append(('_m', 'a.%s(%s)' % (mm.group(1), mm.group(2) or '')))
+                elif re.match(r'^a\.\w+\(', body) or re.search(r'\)\.\w+\(', body):
+                    # already written in method-call syntax: at a concrete scalar type the same text may resolve differently
+                    variants.append(('_m', body))
             for ty in types:
                 for vs, vb in variants:
                     if vs == '' and method_syntax == 'only':
@@ -631,6 +636,23 @@ def cmp_struct(run, S, name, got, exp, rule, where=None, tag='ret', hyp=None):
         run.ob(key, ok, rule=rule, expected=y, found=x, where=where, nontrivial=nontriv or True)
         allok = allok and ok
     return allok
+
+
+def check_defined(run, key, vals, allowed, where=None):
+    """The values the code returns must not divide by anything that can vanish on the property's domain: every denominator is a
+    non-zero constant, positive definite, (a factor of) one of the quantities the statement assumes non-zero (`allowed`), or
+    established non-zero on the path."""
+    if not DEFINEDNESS:
+        return True
+    und = []
+    prod = ONE
+    for a_ in allowed:
+        prod = prod * A.inv(a_)
+    for v_ in vals:
+        if isinstance(v_, El):
+            und.extend(A.uncovered_denominators(v_, prod, list(ACTIVE_NONZERO)))
+    return run.ob(key + ':defined', not und, rule='definedness', expected='no division by a quantity that can vanish where the statement applies (allowed: %s)' % ', '.join(A.show(a_, 4) for a_ in allowed),
+                  found='divides by ' + ', '.join(A.show(u, 6) for u in und[:3]) if und else 'all denominators accounted for', where=where)
 
 
 def _path_eq_pairs(S, guards):
@@ -865,7 +887,8 @@ def _hyp_from_difference(d):
     negs = {}
     for m in d.t:
         for v, e in m:
-            if e < 0 and K[v][0] == 'base':
+            if e < 0 and K[v][0] in ('base', 'fn'):
+                # (a negative power of a plain or function atom, e.g. tan = sin * cos^-1: where d is defined it can be multiplied away)
                 negs[v] = min(negs.get(v, 0), e)
     if negs:
         mul = El({tuple(sorted((v, -e) for v, e in negs.items())): Fr(1)})
@@ -913,8 +936,9 @@ class path_hyps:
     Only equalities the path really tests are used, so the leaf is compared exactly under its own path condition.
     Every equality is also recorded (ACTIVE_PATH_DIFFS) for the divisibility / ideal-membership fallback."""
 
-    def __init__(self, S, guards, field_div=None):
+    def __init__(self, S, guards, field_div=None, nz_guards=None):
         self.S, self.guards, self.field_div = S, guards, field_div
+        self.nz_guards = guards if nz_guards is None else nz_guards
         self.installed = []
 
     def __enter__(self):
@@ -924,7 +948,7 @@ class path_hyps:
         cv = Conv(self.S, field_div=self.field_div)
         # quantities the path established to be non-zero: `a != b`, a failed exact or approximate equality test (x ~ x always
         # holds), a strict inequality, `partial_cmp` outcomes other than Equal
-        for kind, tid, want in self.guards:
+        for kind, tid, want in self.nz_guards:
             try:
                 if kind == 'ite':
                     g_ = parse_guard(self.S, cv, tid)
@@ -1031,7 +1055,7 @@ def check_value(run, S, name, expected, rule='K3 ring conformance', post=None, a
             _linear_path_substitutions(S, guards, cv0, env, mapping)
         cv = Conv(S, env=env, field_div=field_div) if env else cv0
         suffix = '' if len(rets) == 1 else ':path%d' % li
-        with path_hyps(S, guards if len(rets) > 1 else (), field_div=field_div):
+        with path_hyps(S, guards if len(rets) > 1 else (), field_div=field_div, nz_guards=guards):
             if expected is not None:
                 ok = cmp_struct(run, S, name + suffix, cv.val(leaf['v']), _subst_struct(expected, mapping), rule, where=r.get('span')) and ok
             if post is not None:
@@ -1337,20 +1361,24 @@ def is_zero_test(g, x):
     return (A.eq(g['a'], x) and A.eq(g['b'], ZERO)) or (A.eq(g['b'], x) and A.eq(g['a'], ZERO))
 
 
-def check_fold(run, S, name, init_exp, step, rule='K7 fold pattern', what='sum', step_exp=None):
+def check_fold(run, S, name, init_exp, step, rule='K7 fold pattern', what='sum', step_exp=None, _leaf=None, _iter_ok=None, _n=None, _ignore=()):
     """The root must be exactly one Iterator::fold(iter, init, f): init == init_exp (flat list of El), and the
     separately summarised callable f(acc, item) must satisfy step(acc_leaves, item_leaves, result_leaves) -> bool.
-    The root's result must be the fold's result itself."""
-    sr = single_ret(run, S, name)
-    if sr is None:
-        return False
-    r, leaf = sr
+    The root's result must be the fold's result itself.
+    (_leaf / _iter_ok: the same rule applied to one leaf of a root that took the first item by hand, see check_accumulate.)"""
+    if _leaf is None:
+        sr = single_ret(run, S, name)
+        if sr is None:
+            return False
+        r, leaf = sr
+    else:
+        r, leaf = _leaf
     where = r.get('span')
     key = '%s:%s' % (run.prop, name)
     folds = [e for e in leaf['trace'] if e['fn'] == 'core::iter::traits::iterator::Iterator::fold']
     cv = Conv(S)
     # adaptors in front of the fold must be transparent: cloned / copied, or map with a closure returning its item (`|q| *q`)
-    adaptors = [e for e in leaf['trace'] if e['fn'] != 'core::iter::traits::iterator::Iterator::fold']
+    adaptors = [e for e in leaf['trace'] if e['fn'] != 'core::iter::traits::iterator::Iterator::fold' and e['ret'] not in _ignore]
     transparent = {}
     for e_ in adaptors:
         short = e_['fn'].rsplit('::', 1)[-1]
@@ -1385,14 +1413,15 @@ def check_fold(run, S, name, init_exp, step, rule='K7 fold pattern', what='sum',
             tid = t_[2][2]
         else:
             break
-    run.ob(key + ':iter', tid is not None and S.terms[tid] == ['v', 'a0'], rule=rule, expected='folds the caller\'s iterator itself', found=S.showval(itv)[:100], where=where)
+    it_ok = (tid is not None and S.terms[tid] == ['v', 'a0']) if _iter_ok is None else (tid is not None and _iter_ok(tid))
+    run.ob(key + ':iter', it_ok, rule=rule, expected='folds the caller\'s iterator itself', found=S.showval(itv)[:100], where=where)
     init = flat(cv.val(e['args'][1]))
     ok = len(init) == len(init_exp) and all(A.eq(el_of(x), y) for x, y in zip(init, init_exp))
     run.ob(key + ':init', ok, rule=rule, expected='initial accumulator = %s' % [A.show(x) for x in init_exp], found=[A.show(el_of(x)) if isinstance(x, (El, int)) else str(x) for x in init], where=where)
     lam = e.get('lambda', {})
     if not run.ob(key + ':callable', 'out' in lam and lam['out']['k'] == 'ret', rule=rule, expected='the folding callable summarises to one Return', found=str(lam)[:300], where=where):
         return False
-    n = len(init_exp)
+    n = len(init_exp) if _n is None else _n
     res = flat(cv.val(lam['out']['v']))
     names = [t_[1] for t_ in S.terms if t_[0] == 'v' and (t_[1].startswith('acc') or t_[1].startswith('item'))]
     acc_names = sorted([x for x in set(names) if x.startswith('acc')], key=lambda s_: names.index(s_))
@@ -1479,6 +1508,44 @@ def check_accumulate(run, S, name, init_exp, step_exp, fold_step, rule='K7 fold 
         chain.append((t[2][0], arms[0]))
         o = arms[1]
     tail_ok = o is not None and o['k'] == 'cut'
+    if len(chain) == 1 and o is not None and o['k'] == 'ret' and any(e['fn'] == 'core::iter::traits::iterator::Iterator::fold' for e in o['trace']):
+        # `match iter.next() { None => E0, Some(first) => iter.fold(first, f) }`: the same as fold(E0, f) when E0 is what the empty
+        # input must give and E0 (+) first = first
+        cv = Conv(S)
+        n = len(init_exp)
+        v0 = [el_of(x) for x in flat(cv.val(chain[0][1]['v']))]
+        run.ob(key + ':init', len(v0) == n and all(A.eq(x, y) for x, y in zip(v0, init_exp)), rule=rule, expected='no items: %s' % [A.show(x) for x in init_exp][:4], found=[A.show(x) for x in v0][:4], where=where)
+        fe = [e for e in o['trace'] if e['fn'] == 'core::iter::traits::iterator::Iterator::fold'][0]
+        first = [el_of(x) for x in flat(cv.val(fe['args'][1]))]
+        nk = _single_atom(cv.el(chain[0][0]))
+        good = nk is not None and len(first) in (1, n)
+        paths = []
+        for x in first:
+            a_ = _single_atom(x)
+            if a_ is None:
+                good = False
+                break
+            base, path = proj_path(a_)
+            kd = A.CTX.kind[base]
+            if not (kd[0] == 'fn' and kd[1] == 'variant' and _single_atom(kd[2][0]) == nk and path and path[0] == 0):
+                good = False
+                break
+            paths.append(path)
+        # (the item moved as one opaque value - path [0] - or component by component in field order)
+        good = good and (paths == [(0,)] or (len(paths) == n and paths == sorted(paths) and len(set(map(tuple, paths))) == n))
+        run.ob(key + ':first', good, rule=rule, expected='the fold starts from the item returned by the first next(), components in order', found=[A.show(x, 3) for x in first][:4], where=where)
+        if not good:
+            return False
+        item = [El.v('item1.%d' % i) for i in range(n)]
+        neutral = step_exp(list(init_exp), item)
+        run.ob(key + ':neutral', len(neutral) == n and all(A.eq(x, y) for x, y in zip(neutral, item)), rule=rule,
+               expected='%s (%s) first = first, so starting from the first item equals starting from the neutral element' % ('zero' if what == 'sum' else 'one', '+' if what == 'sum' else '*'),
+               found=[A.show(x, 4) for x in neutral][:4], where=where)
+
+        def same_iter(tid):
+            t_ = S.terms[tid]
+            return t_[0] == 'a' and t_[1] == 'mut' and t_[2] and t_[2][0] == chain[0][0]
+        return check_fold(run, S, name, first, fold_step, rule=rule, what=what, step_exp=step_exp, _leaf=(r, o), _iter_ok=same_iter, _n=n, _ignore=(chain[0][0],))
     if not run.ob(key + ':loop', len(chain) >= 3 and tail_ok, rule=rule, expected='an accumulation loop: next() == None returns the accumulator, Some(x) continues (unrolled to the loop bound)',
                   found='%d iterations, tail %s' % (len(chain), o['k'] if o else None), where=where):
         return False
